@@ -4,6 +4,7 @@ from .mcommon import calls_named, in_cycle
 from .roles import adt_of
 from .facts import strip_generics, Operand, Place
 from .analysis import sources
+from . import poscontrol
 
 TECHNIQUE = 'panic-site inventory over the call graph of every public unmanaged operation (unwrap / expect / assert / explicit panic, each classified by the def-use origin of its operand), dominance order in close(), error match tables'
 LEVEL_TEXT = 'static analysis of every path of the unmanaged module'
@@ -76,6 +77,7 @@ def run(ctx):
                 n += 1
                 ctx.ob('R12.1', 'no explicit panic', False, ctx.where(b, t.line), '/'.join(sorted(names)), construct='panic:explicit:' + b.name)
     ctx.count('panic_sites', n)
+    poscontrol.assert_controls(ctx, ['panic:', 'assert:'])
     ctx.floor('R12.1', 'panic sites examined in the unmanaged module', n, 8)
     # Object.obj is emptied only by consuming / final functions
     for b in r.bodies():
@@ -126,6 +128,41 @@ def run(ctx):
     adds = r.sem_calls(d, 'add_permits', 'SEM')
     if cu and adds:
         ctx.ob('R12.2', 'clean-up is the last step of the return path', all(dan.dominates(a.idx, x.idx) for a, w in adds for x in cu), ctx.where(d), '', construct='return:cleanup-last')
+
+    # ---- R12.4 an add racing close() must not leave its object in the closed pool ------------------------------
+    # close() closes the semaphores and then clears the queue under the queue lock.  An add() that obtained its size
+    # permit just before that pushes afterwards; unless the push is decided under the same lock on the pool not being
+    # closed (or is followed by the clean-up that the return path performs) the object stays in the closed pool.
+    h = r.ADD_HELPER
+    han = prog.an(h)
+    ctx.saw(h)
+    for pblk in [x for x, m in r.queue_calls(h) if m == 'push']:
+        gl = [i for i, l in enumerate(h.locals) if l['ty'].startswith('std::sync::MutexGuard<')]
+        guarded = False
+        for d_ in sorted(han.doms(('normal',)).get(pblk.idx) or ()):
+            sw = h.blocks[d_]
+            if sw.term.kind != 'switch' or sw.term.j.get('dty') != 'bool':
+                continue
+            src = sources(han, sw.term.discr)
+            if not any(s[0] == 'call' and (s[1].endswith('is_closed') or s[1].endswith('try_acquire_many')) for s in src):
+                continue
+            arms = dict(sw.term.switch_arms())
+            only_false = pblk.idx in han.reach([arms['false']], ('normal',), avoid=[arms['true']]) and pblk.idx not in han.reach([arms['true']], ('normal',), avoid=[arms['false']])
+            st = han.state_at_term(d_)
+            # the closed test itself runs while the queue guard is live
+            test_calls = [s[2] for s in src if s[0] == 'call' and (s[1].endswith('is_closed') or s[1].endswith('try_acquire_many'))]
+            under = all((han.state_at_term(tc) or (0, 0))[0] & sum(1 << g for g in gl) for tc in test_calls)
+            if only_false and under:
+                guarded = True
+        followed = False
+        reg_clear = [x for x in h.blocks if x.term.kind == 'call' and not x.cleanup and x.term.rcallee in prog.bodies and r.CLEAR is not None and r.CLEAR.path in prog.region([x.term.rcallee])]
+        if reg_clear:
+            rets = han.exits()['return']
+            esc = han.reach_after(pblk.idx, ('normal',), avoid=[x.idx for x in reg_clear])
+            followed = not any(e in esc for e in rets)
+        ctx.ob('R12.4', 'a new object is published only into an open pool (decided under the queue lock) or cleaned up afterwards', guarded or followed, ctx.where(h, pblk.term.line),
+               'add()/try_add() racing close(): the size permit is obtained before close() closes the semaphore, the object is pushed after close() cleared the queue and stays in the closed pool'
+               if not (guarded or followed) else '', construct='add-vs-close:publish-into-closed-pool', sites=[ctx.where(h, pblk.term.line)])
 
     # ---- R12.3 Closed mapping ---------------------------------------------------------------------------
     UERR = 'deadpool::unmanaged::errors::PoolError'
